@@ -11,6 +11,7 @@ OBLIGATIONS = [
     "KafVerif.C29.agree",
     "KafVerif.C29.passthrough_agree",
     "KafVerif.C29.encoded_recognised",
+    "KafVerif.C29.handout_stable",
     "KafVerif.C29.jsOld_disagrees",
     "KafVerif.C29.pyOld_disagrees",
 ]
@@ -25,6 +26,9 @@ LEVEL_NOTE = ("'decodes back to the same fields' depends on encoding/json, json.
               "by the correspondence run with ill-formed UTF-8 around the marker).")
 TECHNIQUE = "Lean 4 proof over a hand-written model + Go/Python/Node/Lean differential correspondence"
 ASSUMPTIONS = [
+    "purity: EncodeEnvelope returns a fresh value — bytes handed to a caller never change afterwards (Lean values are immutable, so the "
+    "model cannot express aliasing); VALIDATED on every run by the hand-out stability monitor (every returned slice is re-checked after "
+    "every later encode) and by encoding from 4 and 16 goroutines (`par` ops)",
     "round-trip monitor: envelope strings are valid UTF-8 (Go replaces ill-formed bytes by U+FFFD) and |size| <= 2^53 (JS numbers)",
     "python3 and node (>= 20) are on PATH; envelope.ts is type-stripped by a fail-closed translator (harness/C29/sdk/run_js.mjs)",
 ]
@@ -221,7 +225,7 @@ def run_sides(ck, binary, lines, tag):
     if rc != 0 or len(go) != len(lines):
         ck.broke("Go harness did not answer every op", "rc=%s %s" % (rc, err[-800:]))
         return None
-    sdk_lines = [l for l in lines if not l.startswith("enc")]
+    sdk_lines = [l for l in lines if not l.startswith(("enc", "par"))]
     stext = "\n".join(sdk_lines) + "\n"
     py, e1 = _sdk(ck, ["python3", os.path.join(SDK, "run_py.py"), os.path.join(lib.REPO, PY_SRC)], stext, "python runner")
     js, e2 = _sdk(ck, ["node", os.path.join(SDK, "run_js.mjs"), os.path.join(lib.REPO, JS_SRC)], stext, "node runner")
@@ -236,7 +240,7 @@ def run_sides(ck, binary, lines, tag):
     it_py, it_js = iter(py), iter(js)
     pys, jss = [], []
     for l in lines:
-        if l.startswith("enc"):
+        if l.startswith(("enc", "par")):
             pys.append(None); jss.append(None)
         else:
             pys.append(next(it_py)); jss.append(next(it_js))
@@ -283,10 +287,13 @@ def run(ck):
         b, cat = gen_is(ck.rng)
         ops.append("is " + lib.hexs(b)); cats.append(cat)
     envs = []
-    for _ in range(n_enc):
+    for j in range(n_enc):
         e = gen_env(ck.rng)
         envs.append(e)
         ops.append(enc_line(e)); cats.append("enc")
+        if j == n_enc // 3:
+            ops.append("par 4"); cats.append("par")
+    ops.append("par 16"); cats.append("par")
     _evaluate(ck, binary, ops, cats)
 
 
@@ -309,10 +316,23 @@ def _evaluate(ck, binary, ops, cats):
             ck.count("answer:" + go.split("=")[1])
             check_is(ck, op, go, py, js, mo, {})
             ck.cov["traces_validated_against_impl"] += 1
+        elif op.startswith("par "):
+            ck.case((op, i), nontrivial=True)
+            ck.count("par:" + go)
+            ck.cov["traces_validated_against_impl"] += 1
+            if go != "par ok=true":
+                ck.violation("encoded-envelope-unstable-under-concurrency",
+                             "envelopes encoded from %s goroutines differ from the serial encoding / change after being returned (%s)" % (op.split()[1], go),
+                             {"ops": [o for o in ops[:i + 1] if o.startswith(("enc", "par"))][-40:], "expected": "par ok=true", "actual": go})
         else:
+            if go.endswith(" stable=false"):
+                prev = [o for o in ops[:i + 1] if o.startswith("enc")]
+                ck.violation("encoded-envelope-overwritten-after-hand-out",
+                             "bytes returned by an earlier EncodeEnvelope call changed after a later EncodeEnvelope call (returned slice is not a fresh value)",
+                             {"ops": prev[-3:], "expected": "stable=true", "actual": go[-40:]})
             ck.case(op, nontrivial=(go != "enc err"), sample={"op": op[:160], "go": go[:120]})
             ck.count("enc:" + ("err" if go == "enc err" else "ok"))
-            if go != mo:
+            if go.replace(" stable=false", " stable=true") != mo:      # stability is reported by the monitor above
                 ck.cov["disagreements_checked"] += 1
                 if not any("EncodeEnvelope bytes" in b["what"] for b in ck.broken):
                   ck.broke("correspondence model/implementation (EncodeEnvelope bytes)",
